@@ -158,7 +158,7 @@ ADAPTIVE_CODECS = ["adaptive.auto", "adaptive.DELTA", "adaptive.FOR", "adaptive.
 
 def C02(tier):
     c = Check("C02", tier)
-    n = sz(tier, 24 * 40_000, 24 * 1_000_000)
+    n = sz(tier, 24 * 40_000, 24 * 600_000)
     count = per_shard(n)
     p = [4097, sz(tier, 1500, 1500), 0, sz(tier, 6, 24)]  # p3: the first cases of every shard are arrays of > 2^20 elements
     runs = [c.spec("array-rel", "rel", "drv_array", "c02", count, params=p)]
@@ -257,7 +257,7 @@ def C13(tier):
 
 def C16(tier):
     c = Check("C16", tier)
-    n = sz(tier, 27 * 30_000, 27 * 800_000)
+    n = sz(tier, 27 * 30_000, 27 * 400_000)
     count = per_shard(n)
     p = [4097, 1000, sz(tier, 0, 1), sz(tier, 2, 6)]  # p3: the first cases of every shard are arrays of 1.05M-3M elements
     c.spec("meta-rel", "rel", "drv_array", "c16", count, params=p[:2] + [1, p[3]])  # incl. the runs of >= 2^24 identical values
@@ -291,7 +291,7 @@ def C16(tier):
 
 def C06(tier):
     c = Check("C06", tier)
-    n = sz(tier, 120_000, 1_500_000)
+    n = sz(tier, 120_000, 800_000)
     count = per_shard(n)
     p = [sz(tier, 1500, 4097), sz(tier, 2500, 1500), 0, sz(tier, 3, 12)]  # p3: worst-case-width arrays of 65k-200k elements per shard
     c.spec("adaptive-rel", "rel", "drv_array", "c06", count, params=p, timeout=3000)
@@ -323,7 +323,7 @@ def C06(tier):
 # --------------------------------------------------------------------------- C07
 def C07(tier):
     c = Check("C07", tier)
-    n = sz(tier, 300_000, 12_000_000)
+    n = sz(tier, 300_000, 6_000_000)
     count = per_shard(n)
     p = [sz(tier, 300, 600), sz(tier, 1500, 5000)]  # p1: one case in this many is a long array (32k-200k elements)
     runs = [c.spec("float-rel", "rel", "drv_float", "c07", count, params=p)]
@@ -387,7 +387,7 @@ def C09(tier):
     import math
     import re
     c = Check("C09", tier)
-    n = sz(tier, 111 * 4 * 400, 111 * 4 * 20000)
+    n = sz(tier, 111 * 4 * 400, 111 * 4 * 8000)
     count = per_shard(n)
     c.spec("packed-asan", "asan", "drv_packed", "c09", count)
     c.spec("packed-rel", "rel", "drv_packed", "c09", count)
